@@ -99,6 +99,28 @@ def gen_cases(ctx):
                 b = ("f", bv) if kb == "f" else c03.mk(rng, 1 if kb == "d" else 2, lay(rng), re=bv)
                 cases.append(("numbin", 0, 10, [12, 10] + dg.enc_number(a) + dg.enc_number(b),
                               "Number(%s) abs_sub Number(%s), values %r, %r" % (KN[ka], KN[kb], av, bv), (av, bv)))
+    # ---- the remainder through the Number container (the enum-wrapper dispatch of %): the 3 x 3 table and a float on either
+    #      side, negative values and divisors, equal magnitudes
+    for ka in ("f", "d", "d2"):
+        for kb in ("f", "d", "d2"):
+            for _ in range(10 if th else 5 * ctx.scale):
+                av, bv = val(rng), val(rng)
+                if bv == 0.0:
+                    bv = -2.5
+                if rng.random() < 0.2 and av != 0.0:
+                    bv = av * rng.choice([1.0, -1.0])
+                a = ("f", av) if ka == "f" else c03.mk(rng, 1 if ka == "d" else 2, lay(rng), re=av)
+                b = ("f", bv) if kb == "f" else c03.mk(rng, 1 if kb == "d" else 2, lay(rng), re=bv)
+                cases.append(("numbin", 0, 4, [12, 4] + dg.enc_number(a) + dg.enc_number(b),
+                              "Number(%s) %% Number(%s), values %r, %r" % (KN[ka], KN[kb], av, bv), (av, bv)))
+        for side in (0, 1):
+            for _ in range(8 if th else 4 * ctx.scale):
+                av, f = val(rng), val(rng)
+                if (side == 0 and f == 0.0) or (side == 1 and av == 0.0):
+                    continue
+                a = ("f", av) if ka == "f" else c03.mk(rng, 1 if ka == "d" else 2, lay(rng), re=av)
+                cases.append(("numbin", 0, 4, [13, 4, side] + dg.enc_number(a) + dg.enc_f(f),
+                              ("Number(%s) %% f64" if side == 0 else "f64 %% Number(%s)") % KN[ka] + ", values %r, %r" % (av, f), (av, f)))
     # ---- ordering through the Number container: a float on either side of a Number of each kind, and Number with Number of
     #      the same kind / with a float inside (< <= > >=): must be the float comparison of the values
     for ka in ("f", "d", "d2"):
